@@ -72,7 +72,7 @@ func DamageJSON(t *tape.Tape, data []byte) (out []byte, desc []string, kinds []s
 			}
 		}
 		a := slots[t.Intn("jd.a", len(slots))]
-		op := t.Weighted("jd.op", 5, 3, 4, 2, 1, 1)
+		op := t.Weighted("jd.op", 5, 3, 4, 2, 1, 1, 3)
 		switch op {
 		case 0: // misdirected write: a := copy of b
 			b := slots[t.Intn("jd.b", len(slots))]
@@ -127,6 +127,32 @@ func DamageJSON(t *tape.Tape, data []byte) (out []byte, desc []string, kinds []s
 				m[nk] = v
 				desc = append(desc, fmt.Sprintf("%s renamed to %q", a.path, nk))
 				kinds = append(kinds, "json-member-renamed")
+			}
+		case 6: // misdirected reference: a declaration replaced by a reference to a named top-level declaration
+			var names []string
+			if top, ok := root.(map[string]interface{}); ok {
+				if td, ok := top["transform_declarations"].(map[string]interface{}); ok {
+					for k := range td {
+						names = append(names, k)
+					}
+				}
+			}
+			sortStrings(names)
+			// references hidden behind xpath_dynamic are validated on a separate path: aim there half of the time
+			var dyn []jsonSlot
+			for _, sl := range slots {
+				if len(sl.path) > 14 && sl.path[len(sl.path)-14:] == ".xpath_dynamic" {
+					dyn = append(dyn, sl)
+				}
+			}
+			if len(dyn) > 0 && t.Bool("jd.tpl.dyn") {
+				a = dyn[t.Intn("jd.tpl.dynslot", len(dyn))]
+			}
+			if _, isObj := get(a).(map[string]interface{}); isObj && len(names) > 0 {
+				nm := names[t.Intn("jd.tplname", len(names))]
+				set(a, map[string]interface{}{"template": nm})
+				desc = append(desc, fmt.Sprintf("%s := {\"template\": %q}", a.path, nm))
+				kinds = append(kinds, "json-misdirected-reference")
 			}
 		case 5: // array element duplicated
 			// (done by copying into a neighbouring slot, arrays keep their length)
